@@ -1577,6 +1577,8 @@ func (eval Evaluator) InnerSum(ctIn *rlwe.Ciphertext, batchSize, n int, opOut *r
 
 	if l == N {
 		if n == 1 {
+			// Copy does not change the degree of the receiver
+			opOut.Resize(ctIn.Degree(), utils.Min(ctIn.Level(), opOut.Level()))
 			opOut.Copy(ctIn)
 			return
 		}
